@@ -25,6 +25,11 @@ NEEDS_NOISE_PATCHES = True
 ALPHA = [E.DRAIN, E.TURN, E.TIMER, E.FINISH, E.DISCONNECT, E.FORCE, E.CANCEL, E.CONNECT_OK, E.CONNECT_ERR,
          E.D_HELLO, E.D_CONNECT, E.D_GARBAGE, E.D_NOISEMARK, E.D_DISCRESP, E.D_MSG, E.D_BADPAYLOAD, E.EOF, E.RESET,
          E.WRITEFAIL, E.FLUSH, E.REQUEST, E.D_DEVINFO, E.RESOLVE_OK, E.RESOLVE_ERR, E.CANCEL_REQ, E.LONGWAIT, E.D_CONNECT_BAD]
+# quick tier: the events without which no listed fault class / operation can be exercised
+ALPHA_Q = [E.DRAIN, E.TIMER, E.DISCONNECT, E.FORCE, E.CANCEL, E.CONNECT_OK, E.CONNECT_ERR, E.D_HELLO, E.D_CONNECT, E.D_GARBAGE,
+           E.D_NOISEMARK, E.D_BADPAYLOAD, E.EOF, E.RESET, E.WRITEFAIL, E.REQUEST, E.D_DEVINFO, E.CANCEL_REQ, E.RESOLVE_ERR]
+if shard_int("QA", 0):
+    ALPHA = ALPHA_Q
 NA = len(ALPHA)
 SH0 = shard_int("SH0", 0)
 STAGE = shard_int("STAGE", 0)
@@ -156,9 +161,9 @@ def h09_4(a0: int, a1: int, a2: int, a3: int) -> bool:
     return _run([a0, a1, a2, a3])
 
 
-def _enabled_first(stage: int, noise: int, naddr: int = 1) -> list:
+def _enabled_first(stage: int, noise: int, naddr: int = 1, alpha=None) -> list:
     out = []
-    for i, ev in enumerate(ALPHA):
+    for i, ev in enumerate(alpha or ALPHA):
         kw = {"noise_psk": PSK} if noise else {}
         if naddr > 1:
             kw["addresses"] = ["10.0.0.%d" % (k + 1) for k in range(naddr)]
@@ -174,17 +179,20 @@ def _enabled_first(stage: int, noise: int, naddr: int = 1) -> list:
 def shards(tier: str) -> list:
     out = []
     fn = "h09_3" if tier == "quick" else "h09_4"
+    quick = tier == "quick"
     combos = [(st, 0, 1) for st in (E.ST_RESOLVING, E.ST_CONNECTING, E.ST_OPENED, E.ST_HELLO_SENT, E.ST_CONNECTED, E.ST_DISCONNECTING)]
     combos += [(E.ST_HELLO_SENT, 1, 1)]  # noise: finish parked on the handshake
     combos += [(E.ST_CONNECTING, 0, 2)]  # two address groups: the TCP connect may take 2 x 60 s
+    alpha = ALPHA_Q if quick else None
     for st, nz, na in combos:
-        for i in _enabled_first(st, nz, na):
-            out.append({"fn": fn, "env": {"STAGE": st, "SH0": i, "NOISE": nz, "NADDR": na}, "cond_timeout": 600 if tier == "quick" else 2400, "path_timeout": 60,
-                        "desc": f"stage {E.STAGE_NAMES[st]}{' (noise)' if nz else ''}{' (2 address groups)' if na > 1 else ''}, first event {E.NAMES[ALPHA[i]]}, then {2 if tier == 'quick' else 3} symbolic events; then time runs until every call ended"})
+        for i in _enabled_first(st, nz, na, alpha):
+            names = alpha or ALPHA
+            out.append({"fn": fn, "env": {"STAGE": st, "SH0": i, "NOISE": nz, "NADDR": na, "QA": 1 if quick else 0}, "cond_timeout": 600 if quick else 2400, "path_timeout": 60,
+                        "desc": f"stage {E.STAGE_NAMES[st]}{' (noise)' if nz else ''}{' (2 address groups)' if na > 1 else ''}, first event {E.NAMES[names[i]]}, then {2 if quick else 3} symbolic events; then time runs until every call ended"})
     return out
 
 
-BOUNDS = {"quick": "6 stages (+ noise handshake stage) x 3 events from a 27-event alphabet (resolver ok/error/hang, connect ok/error/hang, device frames incl. garbage / noise marker / undecodable payload / wrong-order responses, EOF, reset, write failure, silence, caller cancellation, up to 2 concurrent requests), then virtual time runs until all calls have ended",
+BOUNDS = {"quick": "6 stages (+ noise handshake stage, + two address groups) x 3 events from a 19-event alphabet (thorough: 27 events) (resolver ok/error/hang, connect ok/error/hang, device frames incl. garbage / noise marker / undecodable payload / wrong-order responses, EOF, reset, write failure, silence, caller cancellation, up to 2 concurrent requests), then virtual time runs until all calls have ended",
           "thorough": "same with 4 events"}
 OUTSIDE = ["more than two address groups in the TCP connect", "sequences longer than the bound", "real socket timing"]
 ASSUMPTIONS = ["SimLoop virtual clock: callbacks take zero time", "time bounds from the constants cited by the statement: resolve 30 + connect 60; handshake 30 + hello/login 30; request timeout 10; disconnect 5 + 10",
